@@ -56,4 +56,6 @@ MCDevDoc     == {"docDirective"}
 MCDevStale   == {"staleFile"}
 MCDevRoot    == {"rootLeftover"}
 MCAllDevs    == AllDevs
+\* the deviations currently listed open in known_findings.d (the drivers rewrite this line)
+MCCurDevs    == AllDevs
 =============================================================================
